@@ -41,22 +41,24 @@ BAD_MODELS = {"invalid-missing-derivative": "parameters(p=0.5)\nstates(x=1.0, y=
 SCHEMES = [[], ["explicit_euler"], ["generalized_rush_larsen"], ["hybrid_rush_larsen"], ["forward_explicit_euler"], ["forward_generalized_rush_larsen"],
            ["explicit_euler", "generalized_rush_larsen"], ["generalized_rush_larsen", "explicit_euler"], ["hybrid_rush_larsen", "explicit_euler"],
            ["explicit_euler", "generalized_rush_larsen", "hybrid_rush_larsen"]]
+# where the model file lives relative to the working directory of the command (a relative -o name is relative to the working directory)
+WHERE = [None, "model-in-subdir", "cwd-in-subdir"]
 DIMS = {
     "ode2py": {"scheme": SCHEMES, "stiff": [[], ["x"], ["x", "y"], ["y", "nope"]], "delta": [None, 0.5], "ru": [False, True], "format": [None, "none", "black"],
-               "backend": [None, "numpy", "jax"], "out": [None, "result", "sub/other.py", "name.with.dots"], "verbose": [False, True],
+               "backend": [None, "numpy", "jax"], "out": [None, "result", "sub/other.py", "name.with.dots"], "verbose": [False, True], "where": WHERE,
                "config": [None, ("cwd", {"delta": 0.25}), ("file", {"delta": 0.25}), ("cwd", {"scheme": ["generalized_rush_larsen"]}), ("cwd", {"stiff_states": ["y"], "scheme": ["hybrid_rush_larsen"]}),
                           ("cwd", {"python": {"format": "none"}}), ("cwd", {"python": {"backend": "jax"}}), ("file", {"verbose": True}), ("cwd", {"c": {"format": "none", "to": ".c"}}), ("file", {"stiff_states": ["x"], "scheme": ["hybrid_rush_larsen", "explicit_euler"]}),
                           ("file", {"delta": 0.125, "scheme": ["generalized_rush_larsen"]}), ("file", {"python": {"format": "none", "backend": "jax"}}),
                           # falsy values in the configuration still override the command line (documented: the file wins)
                           ("cwd", {"delta": 0.0}), ("file", {"scheme": []}), ("cwd", {"stiff_states": []}), ("file", {"verbose": False})]},
     "ode2c": {"scheme": SCHEMES, "stiff": [[], ["x"], ["x", "y"]], "delta": [None, 0.5], "ru": [False, True], "format": [None, "none", "clang-format"],
-              "to": [None, ".h", ".c"], "out": [None, "result", "sub/other.h"], "verbose": [False, True],
+              "to": [None, ".h", ".c"], "out": [None, "result", "sub/other.h"], "verbose": [False, True], "where": WHERE,
               "config": [None, ("cwd", {"delta": 0.25}), ("file", {"scheme": ["explicit_euler"]}), ("cwd", {"c": {"format": "none"}}), ("cwd", {"c": {"to": ".c"}}), ("cwd", {"c": {"format": "clang-format"}}),
                          ("cwd", {"python": {"format": "none"}}), ("cwd", {"stiff_states": ["y"], "scheme": ["hybrid_rush_larsen"]}), ("file", {"stiff_states": ["x"], "scheme": ["hybrid_rush_larsen", "explicit_euler"]}),
                          ("file", {"verbose": True}), ("file", {"delta": 0.125, "scheme": ["generalized_rush_larsen"]}),
                          ("cwd", {"delta": 0.0}), ("file", {"scheme": []}), ("cwd", {"stiff_states": []})]},
     "convert": {"to": [".py", ".c", ".h", "py", "c"], "scheme": [[], ["explicit_euler"], ["hybrid_rush_larsen"], ["explicit_euler", "generalized_rush_larsen"]], "stiff": [[], ["x"]], "delta": [None, 0.5],
-                "ru": [False, True], "jax": [False, True], "out": [None, "result.py", "result.c", "result"]},
+                "ru": [False, True], "jax": [False, True], "out": [None, "result.py", "result.c", "result"], "where": WHERE},
 }
 
 
@@ -197,13 +199,24 @@ def invoke(args, cwd):
 def run_cfg(cmd, cfg, res, fail):
     with tempfile.TemporaryDirectory(prefix="gxc18-") as d:
         d = os.path.realpath(d)
+        where = cfg.get("where")
+        cwd = d
         model = os.path.join(d, "mymodel.ode")
+        if where == "model-in-subdir":
+            os.makedirs(os.path.join(d, "models"))
+            model = os.path.join(d, "models", "mymodel.ode")
+        elif where == "cwd-in-subdir":
+            cwd = os.path.join(d, "work")
+            os.makedirs(cwd)
         open(model, "w").write(MODEL)
         out = cfg.get("out")
         if out and "/" in out:
-            os.makedirs(os.path.join(d, os.path.dirname(out)), exist_ok=True)
+            os.makedirs(os.path.join(cwd, os.path.dirname(out)), exist_ok=True)
         cfgfile = None
         conf = cfg.get("config")
+        if conf and conf[0] == "cwd" and where:
+            res["skipped"]["project-root-config-with-model-elsewhere"] = res["skipped"].get("project-root-config-with-model-elsewhere", 0) + 1
+            return
         if conf:
             if conf[0] == "cwd":
                 # pyproject.toml is looked up from the project root (black's rule: a directory with .git), as in a real project
@@ -215,12 +228,12 @@ def run_cfg(cmd, cfg, res, fail):
                 open(cfgfile, "w").write(toml(conf[1]))
         before = listing(d)
         args = argv_for(cmd, cfg, model, cfgfile)
-        code, output, exc = invoke(args, d)
+        code, output, exc = invoke(args, cwd)
         res["transitions"] += 1
         after = listing(d)
         new = {k: v for k, v in after.items() if k not in before or before[k] != v}
         try:
-            path, text = expected(cmd, cfg, model, d)
+            path, text = expected(cmd, cfg, model, cwd)
         except Exception as ex:
             # the API itself rejects these options: the CLI must fail too and write nothing
             if code == 0 and new:
